@@ -3,11 +3,12 @@ from sqv.driver import Obligation
 SIZED = ["a + b", "x = a\nx += b\nx", "x = [a]\nx[0] += b\nx[0]", "x = a\nx *= k\nx", "x = [a]\nx[0] *= k\nx[0]",
          "a + b + a", "[a, b] | reduce((p, q) => p + q)"]
 SMALL = [
-    ("[a, b, k]", 3), ("{'p': a, 'q': b}", 2), ("a | map(v => v)", 0), ("a | filter(v => v)", 0), ("sorted(a)", 0),
-    ("reversed(a)", 0), ("enumerate(a)", 0), ("shuffle(a)", 0), ("list(a, b)", 2), ("a[k:]", 0), ("a[::k]", 0), ("a[:k]", 0),
-    ("s | split(',')", 0), ("s | match_all('a')", 0), ("s | map(c => c)", 0), 
-    ("keys({'p': a})", 1), ("values({'p': a})", 1), ("items({'p': a})", 1), ("dict()", 0), ("list()", 0),
-    ("sorted({'p': k, 'q': k})", 2), ("{'p': k} | map((x, y) => y)", 1),
+    ("list_literal", "[a, b, k]", 3), ("dict_literal", "{'p': a, 'q': b}", 2), ("map", "a | map(v => v)", 0),
+    ("filter", "a | filter(v => v)", 0), ("sorted", "sorted(a)", 0), ("reversed", "reversed(a)", 0), ("enumerate", "enumerate(a)", 0),
+    ("list", "list(a, b)", 2), ("slice_from", "a[k:]", 0), ("slice_step", "a[::k]", 0), ("slice_to", "a[:k]", 0),
+    ("split", "s | split(',')", 0), ("match_all", "s | match_all('a')", 0), ("map_str", "s | map(c => c)", 0),
+    ("keys", "keys({'p': a})", 1), ("values", "values({'p': a})", 1), ("items", "items({'p': a})", 1), ("dict", "dict()", 0),
+    ("list0", "list()", 0), ("sorted_dict", "sorted({'p': k, 'q': k})", 2), ("map_dict", "{'p': k} | map((x, y) => y)", 1),
 ]
 
 
@@ -20,7 +21,7 @@ def plan(ctx):
                               bounds="list length symbolic and unbounded (>= 1), index and value unbounded ints",
                               desc=f"FUNCTIONS[{fn!r}] on a list of arbitrary length: ParserError and unchanged iff len >= 10000; else grows by <= 1"))
         obs.append(Obligation(f"list0.{fn}", "xh", "c03", "mut_list_empty", param={"fn": fn}, timeout=T,
-                              bounds="empty list", desc="same on the empty list (excluded from the obligation above by its witness index)"))
+                              bounds="empty list, index -3..3", desc="same on the empty list (excluded from the obligation above by its witness index)"))
     for fn in ("__setitem__", "__setitem_with_op__"):
         obs.append(Obligation(f"dict.{fn}", "xh", "c03", "mut_dict", param={"fn": fn}, timeout=T,
                               bounds="dict length symbolic and unbounded; contents abstracted by a dict subclass with symbolic __len__",
@@ -34,12 +35,18 @@ def plan(ctx):
                               bounds="operand list LENGTHS symbolic and unbounded (contents abstracted by a list subclass with symbolic "
                                      "__len__ / concatenation / repetition; replay uses real lists); k in 0..3",
                               desc=f"eval({text!r}): len(result) <= max(10000, len(a), len(b))"))
-    for i, (text, lit) in enumerate(SMALL):
-        obs.append(Obligation(f"growth.small.t{i}", "xh", "c03", "growth_small", param={"text": text, "lit": lit}, timeout=T * 2,
+    for i, text in enumerate(["a + b", "x = a\nx += b\nx"]):
+        obs.append(Obligation(f"growth.str.t{i}", "xh", "c03", "growth_str", param={"text": text}, timeout=T,
+                              bounds="operand string LENGTHS symbolic and unbounded (str subclass with symbolic __len__/concatenation; replay uses "
+                                     "real strings and maps the result to a list)",
+                              desc=f"eval({text!r}) on strings, then map(c => c): list no longer than max(10000, operands)"))
+    for key, text, lit in SMALL:
+        obs.append(Obligation(f"growth.small.{key}", "xh", "c03", "growth_small", param={"text": text, "lit": lit}, timeout=T * 2,
                               bounds="host lists a, b and string s of length <= 3 (symbolic contents), k in -3..3",
                               desc=f"eval({text!r}): result never longer than the longest operand / the literal spelled out"))
     return {
         "obligations": obs,
+        "uncovered": ["shuffle in the non-growth table (random.shuffle is C/nondeterministic under CrossHair); C19 proves its result is a permutation"],
         "explanation": "CrossHair (z3) symbolic execution of the real mutators (taken from the FUNCTIONS table) and of "
                        "templates through SqParser.eval, with the container LENGTH a symbolic unbounded integer.",
         "functions": ["smartquery.functions._push", "_insert", "_set", "_set_with_op", "_check_array_size",
